@@ -1,0 +1,19 @@
+//go:build verif
+
+package kafka
+
+// Hooks for the /verif harness (build tag `verif` only): accessors to unexported
+// pure functions and state that an external test harness cannot reach.
+
+// VerifMurmur2 exposes murmur2.
+func VerifMurmur2(data []byte) uint32 { return murmur2(data) }
+
+// VerifLoadCachedPartitions exposes loadCachedPartitions.
+func VerifLoadCachedPartitions(n int) []int { return loadCachedPartitions(n) }
+
+// VerifSetRoundRobinCounter places a RoundRobin balancer at a given call count.
+func VerifSetRoundRobinCounter(rr *RoundRobin, c uint32) {
+	rr.mutex.Lock()
+	rr.counter = c
+	rr.mutex.Unlock()
+}
